@@ -131,9 +131,14 @@ FITTING = [i for i in range(len(OPS)) if i not in CHEAP]
 _REF = {}
 
 
-def run_op(world, i):
+def run_op(world, i, keep=None):
     st, res = core.call(OPS[i][1], world)
-    return canon.result_digest(res) if st == "ok" else "raise:" + type(res).__name__ + ":" + str(res)[:80]
+    d = canon.result_digest(res) if st == "ok" else "raise:" + type(res).__name__ + ":" + str(res)[:80]
+    if st == "ok" and keep is not None:
+        # the caller owns the result: it edits every list / array of it in place (shared argument objects and built-in
+        # singletons excepted); no later result may show the edit
+        core.call(canon.caller_edit, res, keep)
+    return d
 
 
 def fresh_digest(i):
@@ -154,8 +159,9 @@ def judge_history(case):
     v = []
     states = {c0}
     digs = []
+    keep = canon.reachable_ids(world, [v_ for h_ in (U.Mixtures, U.Components) for v_ in vars(h_).values()])
     for step, i in enumerate(case["ops"]):
-        d = run_op(world, i)
+        d = run_op(world, i, keep)
         digs.append(d)
         c = canon.canon(world)
         states.add(c)
